@@ -351,7 +351,7 @@ func explore(P *Program, fn *ssa.Function, o ExploreOpts) *HarnessResult {
 					hr.NKnown++
 				default:
 					hr.Paths = append(hr.Paths, res)
-					if o.StopAtFirstViolation && res.Outcome.IsViolation() && res.ModelRes == "sat" {
+					if o.StopAtFirstViolation && res.Outcome.IsViolation() && res.ModelRes == "sat" && len(res.Known) > 0 {
 						stop = true
 					}
 				}
